@@ -38,8 +38,9 @@ RULE = ('BFS over clean cell histories (dedup on canonical session state) x fail
 BOUND = {'quick': '14-cell alphabet, continuations |g|=1; clean histories |h|<=2: failures {FAIL, ill-typed ADD} at every '
                   'instruction position + {FAILWITH, underflow} at the end + 2 parse errors + natural failures; |h|=3: FAIL at '
                   'every position + ADD at the end + parse errors + natural failures; two failing cells in a row for |h|<=1',
-         'thorough': '22-cell alphabet: |h|<=3 with |g|=1 and all 4 failure kinds at every instruction position, parse errors, '
-                     'natural failures; |h|<=2 with |g|=2 for FAIL at every position; two failing cells in a row for |h|<=2, |g|=1'}
+         'thorough': '22-cell alphabet; |h|<=2, |g|=1: all 4 failure kinds at every instruction position + parse errors + natural '
+                     'failures; |h|=3, |g|=1: FAIL at every position + {ADD, FAILWITH, underflow} at the end + parse + natural; '
+                     '|h|<=1, |g|=2: FAIL at every position + parse + natural; two failing cells in a row for |h|<=2, |g|=1'}
 ASSUMPTIONS = ['michelson_to_micheline is a pure function of the cell text: the harness memoises it (PLY table construction '
                'is 80% of a cell otherwise); a session starts from Interpreter.reset(), which installs a fresh stack and context',
                'the failing cell itself is not compared (its own error/stdout are its business); an exception that escapes '
@@ -374,8 +375,9 @@ def plan(tier):
         return [{'name': 'single', 'L1': 2, 'D0': 0, 'kinds_all': ['FAIL', 'ADD'], 'kinds_end': ['FAILWITH', 'underflow'], 'L2': 1, 'double': False},
                 {'name': 'single-3', 'L1': 3, 'D0': 3, 'kinds_all': ['FAIL'], 'kinds_end': ['ADD'], 'L2': 1, 'double': False},
                 {'name': 'double', 'L1': 1, 'D0': 0, 'kinds_all': ['FAIL'], 'kinds_end': ['ADD'], 'L2': 1, 'double': True}]
-    return [{'name': 'single', 'L1': 3, 'D0': 0, 'kinds_all': ['FAIL', 'FAILWITH', 'underflow', 'ADD'], 'kinds_end': [], 'L2': 1, 'double': False},
-            {'name': 'deep', 'L1': 2, 'D0': 0, 'kinds_all': ['FAIL'], 'kinds_end': [], 'L2': 2, 'double': False},
+    return [{'name': 'single', 'L1': 2, 'D0': 0, 'kinds_all': ['FAIL', 'FAILWITH', 'underflow', 'ADD'], 'kinds_end': [], 'L2': 1, 'double': False},
+            {'name': 'single-3', 'L1': 3, 'D0': 3, 'kinds_all': ['FAIL'], 'kinds_end': ['ADD', 'FAILWITH', 'underflow'], 'L2': 1, 'double': False},
+            {'name': 'deep', 'L1': 1, 'D0': 0, 'kinds_all': ['FAIL'], 'kinds_end': [], 'L2': 2, 'double': False},
             {'name': 'double', 'L1': 2, 'D0': 0, 'kinds_all': ['FAIL'], 'kinds_end': ['ADD'], 'L2': 1, 'double': True}]
 
 
